@@ -212,11 +212,13 @@ class H5Group:
                                               idx=pos)
         return self.get_by_name(name)
 
-    def delete(self, id_or_name, delete_if_empty=True):
+    def delete(self, id_or_name, delete_if_empty=True, exact=False):
         """
         Deletes the child HDF5 group that matches the given name or id.
+        With exact=True the argument is taken as a name even if it looks
+        like an id.
         """
-        if util.is_uuid(id_or_name):
+        if util.is_uuid(id_or_name) and not exact:
             name = self.get_by_id_or_name(id_or_name).name
         else:
             name = id_or_name
